@@ -576,6 +576,29 @@ span_is(const struct span *sp, const uint8_t *in, const uint8_t *want, size_t wn
   return sp->len == wn && (wn == 0 || memcmp(in + sp->off, want, wn) == 0);
 }
 
+/* class of a Uri-Host / Uri-Port difference; a libcoap-style path (no leading '/') is scanned for ".." because
+ * one known defect removes earlier options when the path backs up */
+static int
+raw_path_has_dotdot(const uint8_t *p, size_t n) {
+  for (size_t i = 0; i <= n;) {
+    size_t j = i;
+    while (j < n && p[j] != '/')
+      j++;
+    if (ref_segment_dots(p + i, j - i) == 2)
+      return 1;
+    i = j + 1;
+  }
+  return 0;
+}
+static const char *
+optdiff_class(int got_present, int want_present, int dotdot) {
+  if (got_present && !want_present)
+    return "unexpected";
+  if (!got_present && want_present)
+    return dotdot ? "missing-after-dot-dot" : "missing";
+  return "value";
+}
+
 /* One of the two split functions on one input.  Returns 1 when reference and libcoap both accept. */
 static int
 judge_split(int proxy, const uint8_t *in, size_t n, struct verdict *v, uint64_t *digest) {
@@ -692,7 +715,7 @@ judge_split(int proxy, const uint8_t *in, size_t n, struct verdict *v, uint64_t 
     } else if (ref_uri_to_options(&ru, 0, &want) == 0) {
       const struct optrec *gh = NULL, *gp = NULL;
       const struct ref_opt *rh = NULL, *rp = NULL;
-      int gnh = 0, gnp = 0;
+      int gnh = 0, gnp = 0, dd = raw_path_has_dotdot(wp, wpn);
       for (int i = 0; i < c.opts.n; i++) {
         if (c.opts.o[i].num == COAP_OPTION_URI_HOST)
           gh = &c.opts.o[i], gnh++;
@@ -706,12 +729,12 @@ judge_split(int proxy, const uint8_t *in, size_t n, struct verdict *v, uint64_t 
           rp = &want.o[i];
       }
       if (gnh > 1 || !!gh != !!rh || (gh && (gh->len != rh->len || memcmp(gh->val, rh->val, rh->len) != 0))) {
-        snprintf(cls, sizeof cls, "uri-mismatch:%s:uri-host", FN_URI_OPTLIST);
+        snprintf(cls, sizeof cls, "uri-mismatch:%s:uri-host:%s", FN_URI_OPTLIST, optdiff_class(gnh, !!rh, dd));
         verdict_set(v, cls, "%s(%s): Uri-Host %s, expected %s", FN_URI_OPTLIST, show(in, n),
                     gh ? show(gh->val, gh->len) : "absent", rh ? show(rh->val, rh->len) : "absent");
       }
       if (gnp > 1 || !!gp != !!rp || (gp && (gp->len != rp->len || memcmp(gp->val, rp->val, rp->len) != 0))) {
-        snprintf(cls, sizeof cls, "uri-mismatch:%s:uri-port", FN_URI_OPTLIST);
+        snprintf(cls, sizeof cls, "uri-mismatch:%s:uri-port:%s", FN_URI_OPTLIST, optdiff_class(gnp, !!rp, dd));
         verdict_set(v, cls, "%s(%s): Uri-Port %s, expected %s (scheme %s, port %u, default %u)", FN_URI_OPTLIST,
                     show(in, n), gp ? show(gp->val, gp->len) : "absent", rp ? show(rp->val, rp->len) : "absent",
                     ref_schemes[ru.scheme].name, ru.port, ref_schemes[ru.scheme].default_port);
@@ -1112,7 +1135,8 @@ check_uri_optlist(const uint8_t *s, size_t len, const struct pathref *prp) {
     if (same)
       continue;
     if (k < 2)
-      snprintf(sig, sizeof sig, "uri-mismatch:%s:%s", FN_URI_OPTLIST, nm[k]);
+      snprintf(sig, sizeof sig, "uri-mismatch:%s:%s:%s", FN_URI_OPTLIST, nm[k],
+               optdiff_class(G[k].n, R[k].n, raw_path_has_dotdot(s, (size_t)prp->cut)));
     else
       snprintf(sig, sizeof sig, "uri-mismatch:%s:%s:%s", FN_URI_OPTLIST, nm[k],
                classify(k == 2, &R[k], &G[k], k == 2 && prp->last_raw_is_dot));
